@@ -196,6 +196,13 @@ fn c05(quick: bool) -> PropRun {
             scs.push(spec(&format!("C05.{}", name), &c, &si, env, d, oracles));
         }
     }
+    // the shared pool's scripts and configurations on the ideal network (its fault menus are replaced by timing deviations)
+    for mut sp in crate::pool::lw_pool(quick) {
+        let (mut env, _) = ideal(sp.cfg.latency, if quick { 3 } else { 5 });
+        env.dev_start = sp.env.dev_start; env.max_rounds = sp.env.dev_start + env.dev_rounds + T_LIVE_ROUNDS; env.deltas = &[20, 0, 2000]; env.skip_choice = false; env.fair_delta = sp.env.fair_delta;
+        sp.env = env; sp.d = 1; sp.oracles = oracles; sp.tag = format!("C05.pool-ideal.{}", sp.tag);
+        scs.push(lw_scenario(sp));
+    }
     PropRun { level: "model_checking", scenarios: scs, units: vec![], replay_case: None, summary: lw_summary(
         "ideal network (every frame delivered in order after a fixed latency); deviations are timing and application choices only (step spacing, one side skipping a step, extra flush() calls); oracle: global delivery order = submission order minus TimeSensitive packets, exactly once",
         json!({"d": d, "scripts": format!("all scripts of <= {} packets over 2 channels x 4 modes x sizes {:?} + 6 burst scripts", n, sizes), "latency_rounds": [1, 2, 3, 5], "deltas_ms": [20, 0, 1, 150, 2000]}),
@@ -312,6 +319,8 @@ fn c11(quick: bool) -> PropRun {
         }
     }
     scs.extend(crate::props_ew::survive_scenarios(quick, true));
+    // the shared pool (single losses, duplicates, delays, pauses on small windows and allocations): nothing may stay stalled at T_live
+    scs.extend(from_pool(quick, "C11", O_C11POOL));
     PropRun { level: "model_checking", scenarios: scs, units: vec![], replay_case: None, summary: lw_summary(
         "fault phase (one or two deviations: a blackout of 5/100/500/3000 rounds in one or both directions starting at any round of the window, a lasting change of latency x10/x25 or of the step cadence x10/x50, single losses, pauses of 2 and 10 s) followed by a fair network; probe packets of every mode (50 B to 2 kB, both directions) submitted after the longest fault must all be delivered, earlier Reliable packets too, within T_live = 300 s of steps (fixed a priori); data still pending at the horizon must at least have made progress since the probes were submitted",
         json!({"d": if quick { 1 } else { 2 }, "blackout_rounds": [5, 100, 500, 3000], "directions": ["a->b", "b->a", "both"], "shifts": ["latency 1->10 rounds", "latency 1->25 rounds", "cadence ->200 ms", "cadence ->1000 ms"], "fills": ["packet window 4 filled 3x", "frame window 4 filled", "receive allocation of 3 fragments exhausted", "default 4096 windows, both directions", "idle"], "probe_round": probe_round, "T_live_rounds": T_LIVE_ROUNDS}),
